@@ -35,7 +35,28 @@ func zzNewFile(blocks, u int, present []bool, data []byte) *zzFile {
 	return f
 }
 
+// fault injection: the zzFileFailAt-th data transfer (reads and writes of all files,
+// counted from 0) fails with an I/O error and has no effect
+var (
+	zzFileOps    int
+	zzFileFailAt = -1
+	zzErrFileIO  = &zzFileError{}
+)
+
+type zzFileError struct{}
+
+func (*zzFileError) Error() string { return "zz: injected I/O error" }
+
+func zzFileFault() bool {
+	n := zzFileOps
+	zzFileOps++
+	return n == zzFileFailAt
+}
+
 func (f *zzFile) ReadAt(buf []byte, off int64) (int, error) {
+	if zzFileFault() {
+		return 0, zzErrFileIO
+	}
 	for i := range buf {
 		x := int(off) + i
 		if x < len(f.data) {
@@ -48,6 +69,9 @@ func (f *zzFile) ReadAt(buf []byte, off int64) (int, error) {
 }
 
 func (f *zzFile) WriteAt(buf []byte, off int64) (int, error) {
+	if zzFileFault() {
+		return 0, zzErrFileIO
+	}
 	for i := range buf {
 		x := int(off) + i
 		if x < len(f.data) {
